@@ -5,9 +5,10 @@ import random
 RULE = ('PROTOCOLINFO: every subset of {SAFECOOKIE,COOKIE,HASHEDPASSWORD,NULL} in shuffled orders (+ unknown '
         'and differently-cased names, + no AUTH line); COOKIEFILE absent / plain / over a critical alphabet '
         '(space, quote, backslash, =, tab, LF, CR, 0x01, 0x7f, digits after an octal escape) / bytes >= 128 '
-        '(reported separately: finding C04-F1); cookie file absent, a directory, 0/16/31/32/33/64 bytes, or at '
+        '(the class of former finding C04-F1); cookie file absent, a directory, 0/16/31/32/33/64 bytes, or at '
         'another path; providers none / None / value / empty / Deferred (value, None) / coroutine / coroutine '
-        'awaiting a Deferred / raising; scripts of up to 10 stimuli: the reply that fits the command in '
+        'awaiting a Deferred / raising; a sweep of every fault kind at every step of the four flows and of every '
+        'challenge-answer variant; scripts of up to 10 stimuli: the reply that fits the command in '
         'flight, a 5xx, a reply of the wrong shape, AUTHCHALLENGE answers with a good / bit-flipped / short / '
         'long / lower-case / odd / non-hex / zero / empty / client-side / missing hash and ok / lower / non-hex '
         '/ missing nonce, connection loss and arrival of the deferred password at every position. '
@@ -34,7 +35,7 @@ def gen_path(rng):
     if r < 0.93:
         nm = b''.join(rng.choice(CRIT) for _ in range(rng.randrange(1, 9)))
         return b'x' + nm if nm in (b'.', b'..') else nm
-    # bytes >= 128: finding C04-F1
+    # bytes >= 128: the class of former finding C04-F1 (repaired by a1fd963)
     return b'caf\xc3\xa9' + bytes(rng.randrange(128, 256) for _ in range(rng.randrange(0, 3)))
 
 
@@ -138,7 +139,7 @@ def subsets():
 
 
 def generate(rng, tier, n):
-    out = []
+    out = fault_sweep()
     # systematic block: 16 subsets x 2 orders x 5 cookie conditions x 6 providers
     for s in subsets():
         for order in range(2):
@@ -176,7 +177,42 @@ def generate(rng, tier, n):
         rng.shuffle(s)
         path = 'gen' if rng.random() < 0.88 else None
         out.append(make_case(rng, s, auth_line=rng.random() < 0.96, path=path))
-    return out[:max(n, 960)]
+    return out[:max(n, 1400)]
+
+
+def fault_sweep():
+    """every fault kind at every step of the four flows; every challenge-answer variant"""
+    rng = random.Random(777)
+    fit = lambda: {'k': 'ok', 'd': {'t': 'fit', 'hash': 'good', 'snonce': '5a' * 32}}
+    flows = [(['SAFECOOKIE'], 'data32', 'none', 7), (['COOKIE'], 'data32', 'none', 6),
+             (['HASHEDPASSWORD'], 'absent', 'value', 6), (['HASHEDPASSWORD'], 'absent', 'later', 6),
+             (['NULL'], 'absent', 'none', 6)]
+    faults = [{'k': 'err', 'code': 515}, {'k': 'ok', 'd': {'t': 'none'}}, {'k': 'ok', 'd': {'t': 'proto'}},
+              {'k': 'ok', 'd': {'t': 'info', 'key': 'version'}},
+              {'k': 'ok', 'd': {'t': 'chal', 'hash': 'good', 'snonce': '5a' * 32}}, {'k': 'lose'}]
+    out = []
+    for ms, cond, prov, n in flows:
+        for i in range(n + 1):
+            for f in faults:
+                c = make_case(rng, ms, path=b'control_auth_cookie', cond=cond, provider=prov)
+                ops = [fit() for _ in range(n)]
+                ops[i:i + 1] = [dict(f)] if f['k'] != 'lose' else [dict(f)] + ops[i:i + 1]
+                if prov == 'later':
+                    ops.insert(1, {'k': 'pwfire'})
+                    if f['k'] == 'lose' and i == 1:
+                        ops[1], ops[2] = ops[2], ops[1]     # lose while the password is awaited
+                c['ops'] = ops
+                out.append(c)
+    for h in ['good'] + HASH_MODES:
+        for nm in ['ok', 'lower', 'nonhex', 'missing']:
+            for sn in [32, 0, 1]:
+                c = make_case(rng, ['COOKIE', 'SAFECOOKIE'], path=b'control_auth_cookie', cond='data32',
+                              provider='none')
+                d = {'t': 'fit', 'hash': h, 'nmode': nm, 'pos': 31, 'bit': 0,
+                     'snonce': H(bytes(rng.randrange(256) for _ in range(sn)))}
+                c['ops'] = [fit(), {'k': 'ok', 'd': d}] + [fit() for _ in range(5)]
+                out.append(c)
+    return out
 
 
 def exhaustive(tier):
